@@ -6,8 +6,12 @@
   (JSR/JSRR push a subroutine frame whose caller is the JSR's address; JMP R7 pops, other JMPs do not; the operate,
   load/store, LEA and BR instructions leave the frame stack alone).  Trap/interrupt pushes and the RTI pop are in
   `handleInterrupt`/`execInstr .rti` and use the same two functions.
+  Whole steps and runs (`frames_inv_step`, `frames_inv_run`, Lemmas/FrameInv.lean: an invariant calculus over every primitive,
+  instruction, trap/interrupt entry and the run loop): with debug frames on, the frame list has exactly `depth` entries in
+  every reachable state (`frames_inv_new` for the initial one).
 -/
 import Lc3V.Props.C08
+import Lc3V.Lemmas.FrameInv
 namespace Lc3V.C27
 open Lc3V Sim SimM
 
@@ -97,11 +101,36 @@ theorem operate_keeps_frames (s : Sim) (dr sr1 : Reg) (op2 : ImmOrReg 5) (hs : s
   rw [C08.exec_add s dr sr1 op2 hs, C08.exec_and s dr sr1 op2 hs, C08.exec_not s dr sr1 hs]
   exact ⟨rfl, rfl, rfl, rfl, rfl, rfl⟩
 
+/-! ### whole steps and runs -/
+
+theorem framesInv_eq (s : Sim) : FramesInv s ↔ FInv s := Iff.rfl
+
+/-- **the frame list has exactly `depth` entries after every step** (any instruction, trap, interrupt, exception; real or
+    virtual traps; strict or not): all changes to the frame stack go through `push_frame` / `pop_frame`, which keep the
+    list and the depth in step, saturating together at zero -/
+theorem frames_inv_step (s : Sim) (h : FramesInv s) : FramesInv (Sim.step s).2 := step_frames_inv s h
+
+/-- … and after every run (any tripwire, any number of iterations) -/
+theorem frames_inv_run (tw : Tripwire) (fuel iter : Nat) (s : Sim) (h : FramesInv s) (r : Except SimErr Pause) (s' : Sim)
+    (hr : runLoop tw fuel iter s = some (r, s')) : FramesInv s' := by
+  have := runLoop_frames_inv tw fuel iter s h
+  rw [hr] at this
+  exact this
+
+/-- a new machine satisfies the invariant (depth 0, empty list or no list) -/
+theorem frames_inv_new (flags : Flags) (fill : Nat → W) (os : List (W × List (Option W))) (mcr : Bool) :
+    FramesInv (newSim flags fill os mcr) := by
+  intro f hf
+  unfold newSim loadObj at hf ⊢
+  simp only [Bool.false_eq_true, if_false] at hf ⊢
+  cases hd : flags.debugFrames <;> simp [hd] at hf
+  subst hf; rfl
+
 -- non-vacuity: an empty debug list at depth 0 satisfies the invariant; saturation at zero
 example : (0 : Nat) - 1 = 0 := rfl
 
 def obligations : List Lean.Name :=
   [``push_depth, ``pop_depth, ``push_inv, ``pop_inv, ``push_fields, ``args_pbr, ``args_cc, ``sig_lookup, ``trap_signatures, ``jsr_pushes, ``jmp_pops,
-   ``operate_keeps_frames]
+   ``operate_keeps_frames, ``frames_inv_step, ``frames_inv_run, ``frames_inv_new]
 
 end Lc3V.C27
